@@ -96,12 +96,12 @@ fn rmod_fixed<const N: usize>(cx: &mut Cx, iters: usize) {
         let st = words_bytes(&stream_for(&mut cx.rng, &trim(m.clone())));
         let nzm = nz::<N>(&m).unwrap();
         let ev = |form: &str| Ev::new("rmod", form).i("bits", 64 * N as i64).n("m", &m).b("st", &st);
-        cx.call(ev("uint.random_mod"), || { let mut s = Script::new(st.clone()); let v = Uint::<N>::random_mod(&mut Inf(&mut s), &nzm); O::ok().n("v", &w(&v)).i("c", s.pos as i64) });
-        cx.call(ev("uint.try_random_mod"), || { let mut s = Script::new(st.clone()); match Uint::<N>::try_random_mod(&mut Fal(&mut s), &nzm) { Ok(v) => O::ok().n("v", &w(&v)).i("c", s.pos as i64), Err(_) => O::err("Rng") } });
+        cx.call(ev("uint.random_mod"), || { let mut s = Script::new(st.clone()); let v = Uint::<N>::random_mod(&mut Inf(&mut s), &nzm); O::ok().n("v", &w(&v)) });
+        cx.call(ev("uint.try_random_mod"), || { let mut s = Script::new(st.clone()); match Uint::<N>::try_random_mod(&mut Fal(&mut s), &nzm) { Ok(v) => O::ok().n("v", &w(&v)), Err(_) => O::err("Rng") } });
         if it % 4 == 0 {
             // stream that ends early: the fallible form must report the RNG error, never a value
             let cut = st[..cx.rng.below(st.len().max(1))].to_vec();
-            cx.call(Ev::new("rmod", "uint.try_random_mod.exhausted").i("bits", 64 * N as i64).n("m", &m).b("st", &cut).i("fail", 1), || { let mut s = Script::failing(cut.clone()); match Uint::<N>::try_random_mod(&mut Fal(&mut s), &nzm) { Ok(v) => O::ok().n("v", &w(&v)).i("c", s.pos as i64), Err(_) => O::err("Rng") } });
+            cx.call(Ev::new("rmod", "uint.try_random_mod.exhausted").i("bits", 64 * N as i64).n("m", &m).b("st", &cut).i("fail", 1), || { let mut s = Script::failing(cut.clone()); match Uint::<N>::try_random_mod(&mut Fal(&mut s), &nzm) { Ok(v) => O::ok().n("v", &w(&v)), Err(_) => O::err("Rng") } });
         }
         // the same stream through the boxed sampler of the same width
         let nzb_ = nzb(&m).unwrap();
@@ -120,8 +120,8 @@ fn rmod_boxed(cx: &mut Cx, iters: usize) {
         let st = words_bytes(&stream_for(&mut cx.rng, &trim(m.clone())));
         let nzm = nzb(&m).unwrap();
         let ev = |form: &str| Ev::new("rmod", form).i("bits", 64 * n as i64).n("m", &m).b("st", &st);
-        cx.call(ev("boxed.random_mod"), || { let mut s = Script::new(st.clone()); let v = BoxedUint::random_mod(&mut Inf(&mut s), &nzm); O::ok().n("v", &wb(&v)).i("c", s.pos as i64).i("vp", v.bits_precision() as i64) });
-        cx.call(ev("boxed.try_random_mod"), || { let mut s = Script::new(st.clone()); match BoxedUint::try_random_mod(&mut Fal(&mut s), &nzm) { Ok(v) => O::ok().n("v", &wb(&v)).i("c", s.pos as i64).i("vp", v.bits_precision() as i64), Err(_) => O::err("Rng") } });
+        cx.call(ev("boxed.random_mod"), || { let mut s = Script::new(st.clone()); let v = BoxedUint::random_mod(&mut Inf(&mut s), &nzm); O::ok().n("v", &wb(&v)).i("vp", v.bits_precision() as i64) });
+        cx.call(ev("boxed.try_random_mod"), || { let mut s = Script::new(st.clone()); match BoxedUint::try_random_mod(&mut Fal(&mut s), &nzm) { Ok(v) => O::ok().n("v", &wb(&v)).i("vp", v.bits_precision() as i64), Err(_) => O::err("Rng") } });
     }
 }
 
@@ -135,8 +135,8 @@ fn rmod_limb(cx: &mut Cx, iters: usize) {
         let last = match cx.rng.below(4) { 0 => m - 1, 1 => 0, 2 => cx.rng.next() % m, _ => cx.rng.next() };
         st.extend_from_slice(&last.to_le_bytes()[..nb]);
         let nzm = nzl(m).unwrap();
-        cx.call(Ev::new("rmod", "limb.random_mod").i("bits", 64).n("m", &[m]).b("st", &st), || { let mut s = Script::new(st.clone()); let v = Limb::random_mod(&mut Inf(&mut s), &nzm); O::ok().n("v", &[v.0]).i("c", s.pos as i64) });
-        cx.call(Ev::new("rmod", "limb.try_random_mod").i("bits", 64).n("m", &[m]).b("st", &st), || { let mut s = Script::new(st.clone()); match Limb::try_random_mod(&mut Fal(&mut s), &nzm) { Ok(v) => O::ok().n("v", &[v.0]).i("c", s.pos as i64), Err(_) => O::err("Rng") } });
+        cx.call(Ev::new("rmod", "limb.random_mod").i("bits", 64).n("m", &[m]).b("st", &st), || { let mut s = Script::new(st.clone()); let v = Limb::random_mod(&mut Inf(&mut s), &nzm); O::ok().n("v", &[v.0]) });
+        cx.call(Ev::new("rmod", "limb.try_random_mod").i("bits", 64).n("m", &[m]).b("st", &st), || { let mut s = Script::new(st.clone()); match Limb::try_random_mod(&mut Fal(&mut s), &nzm) { Ok(v) => O::ok().n("v", &[v.0]), Err(_) => O::err("Rng") } });
     }
 }
 
@@ -300,9 +300,9 @@ fn const_monty(cx: &mut Cx, iters: usize) {
     for _ in 0..iters {
         let st = words_bytes(&uniform(&mut cx.rng, 12));
         let m1 = w(&<CM64 as ConstMontyParams<1>>::MODULUS.get());
-        cx.call(Ev::new("rmod", "ConstMontyForm.random").i("bits", 64).n("m", &m1).b("st", &st), || { let mut s = Script::new(st.clone()); let v = ConstMontyForm::<CM64, 1>::random(&mut Inf(&mut s)); O::ok().n("v", &w(&v.retrieve())).i("c", s.pos as i64) });
+        cx.call(Ev::new("rmod", "ConstMontyForm.random").i("bits", 64).n("m", &m1).b("st", &st), || { let mut s = Script::new(st.clone()); let v = ConstMontyForm::<CM64, 1>::random(&mut Inf(&mut s)); O::ok().n("v", &w(&v.retrieve())) });
         let m4 = w(&<CM256 as ConstMontyParams<4>>::MODULUS.get());
-        cx.call(Ev::new("rmod", "ConstMontyForm.random").i("bits", 256).n("m", &m4).b("st", &st), || { let mut s = Script::new(st.clone()); let v = ConstMontyForm::<CM256, 4>::random(&mut Inf(&mut s)); O::ok().n("v", &w(&v.retrieve())).i("c", s.pos as i64) });
+        cx.call(Ev::new("rmod", "ConstMontyForm.random").i("bits", 256).n("m", &m4).b("st", &st), || { let mut s = Script::new(st.clone()); let v = ConstMontyForm::<CM256, 4>::random(&mut Inf(&mut s)); O::ok().n("v", &w(&v.retrieve())) });
     }
 }
 
